@@ -4,6 +4,7 @@ package h
 
 import (
 	"errors"
+	"strconv"
 	"time"
 
 	"github.com/d5/tengo/v2"
@@ -311,7 +312,17 @@ func C15_History() {
 	src := histScripts[vf.Choice("script", len(histScripts))]
 	inert := histInert[vf.Choice("inert", len(histInert))]
 	histNames := []string{"x", "y", inert}
-	s := tengo.NewScript([]byte(src))
+	// every script ends in a call of the host function fin, which does nothing
+	// unless a RunContext step has armed it: then it cancels that run's context,
+	// so the cancellation and the end of the run coincide
+	s := tengo.NewScript([]byte(src + "\nfin()"))
+	var armed func()
+	_ = s.Add("fin", &tengo.UserFunction{Name: "fin", Value: func(args ...tengo.Object) (tengo.Object, error) {
+		if armed != nil {
+			armed()
+		}
+		return tengo.UndefinedValue, nil
+	}})
 	added := map[string]int64{} // model of Script variables
 	// phase 1: Add/Remove before compiling
 	for k := 0; k < 2; k++ {
@@ -383,6 +394,23 @@ func C15_History() {
 	cur := c
 	for k := 0; k < L; k++ {
 		switch vf.Choice("op", 6) {
+		case 6: // RunContext with a context that is cancelled just as the script finishes
+			rounds := 1
+			if !vf.Symbolic() {
+				rounds = 40 // natively which pending event RunContext sees first is up to the scheduler
+			}
+			for r := 0; r < rounds; r++ {
+				ctx := liveCtx()
+				armed = func() {
+					ctx.err = errCancelled
+					close(ctx.done)
+				}
+				var rerr error
+				res := vf.Guard(func() { rerr = cur.RunContext(ctx) }, 6000000)
+				armed = nil
+				vf.Assert(res == 0 && (rerr == nil || rerr == errCancelled), "a run cancelled as it finishes returns its own result or the context's error")
+				runModel() // every statement before fin() was executed
+			}
 		case 5: // Set with a Go value that has no Tengo counterpart: rejected, nothing changes
 			n := histNames[vf.Choice("bn", 2)]
 			bad := []interface{}{float32(1.5), uint(7), []string{"a"}, struct{}{}, map[int]int{1: 2}}
@@ -432,6 +460,9 @@ func C15_History() {
 		case 4: // GetAll
 			for _, v := range cur.GetAll() {
 				n := v.Name()
+				if n == "fin" {
+					continue
+				}
 				if defined[n] {
 					vf.Assert(v.Int64() == model[n], "GetAll reads the last values")
 				} else {
@@ -442,4 +473,88 @@ func C15_History() {
 	}
 	_ = ran
 	vf.Reach("history")
+}
+
+// C15_CancelledRun: a fixed history around a run whose context is cancelled
+// just as the script finishes (its last statement calls a host function that
+// cancels the context): Set, RunContext (cancelled at the finish), Set, Run,
+// Get - the variable reads as the last value the script assigned in the LAST
+// run, on the object itself and on a clone taken afterwards.
+func C15_CancelledRun() {
+	src := histScripts[vf.Choice("script", 2)]
+	s := tengo.NewScript([]byte(src + "\nfin()"))
+	var armed func()
+	_ = s.Add("fin", &tengo.UserFunction{Name: "fin", Value: func(args ...tengo.Object) (tengo.Object, error) {
+		if armed != nil {
+			armed()
+		}
+		return tengo.UndefinedValue, nil
+	}})
+	v0, v1 := vf.Int64("v0"), vf.Int64("v1")
+	_ = s.Add("x", v0)
+	c, err := s.Compile()
+	vf.Assert(err == nil, "script compiles")
+	useClone := vf.Choice("clone", 2) == 1
+	rounds := 1
+	if !vf.Symbolic() {
+		rounds = 60 // natively which pending event RunContext sees first is up to the scheduler
+	}
+	for r := 0; r < rounds; r++ {
+		ctx := liveCtx()
+		armed = func() {
+			ctx.err = errCancelled
+			close(ctx.done)
+		}
+		var rerr error
+		res := vf.Guard(func() { rerr = c.RunContext(ctx) }, 6000000)
+		armed = nil
+		vf.Assert(res == 0 && (rerr == nil || rerr == errCancelled), "a run cancelled as it finishes returns its own result or the context's error")
+		cur := c
+		if useClone {
+			cur = c.Clone()
+		}
+		vf.Assert(cur.Set("x", v1) == nil, "Set after the cancelled run")
+		rerr2, panicked, _ := RunGuarded(cur)
+		vf.Assert(rerr2 == nil && !panicked, "a run after the cancelled run succeeds")
+		want := v1 + 1
+		if src == histScripts[1] {
+			want = v1 * 2
+		}
+		vf.Assert(cur.Get("y").Int64() == want, "after Set and Run the variable reads as the value the script assigned in that run")
+		_ = c.Set("x", v0)
+	}
+	vf.Reach("cancelledrun")
+}
+
+// numeric-looking strings at and beyond the int64 / float64 range and in the
+// spellings strconv accepts or rejects with other bases
+var accessorStrings = []string{"9223372036854775807", "9223372036854775808", "-9223372036854775808", "-9223372036854775809",
+	"99999999999999999999999", "1e999", "-1e999", "1e-999", "1.7976931348623157e308", "1.7976931348623159e308", "0x10", "010", "0b11", "1_000",
+	"+5", " 1", "1 ", "", "NaN", "Inf", "-Inf", "infinity", "1e3", ".5", "5.", "0x1p4", "१२"}
+
+// C15_AccessorStrings: the typed accessors on string values that look numeric:
+// a decimal int64 / a float64 in Go's syntax converts, anything else - also a
+// well-formed number outside the range - reads as the zero value.
+func C15_AccessorStrings() {
+	text := accessorStrings[vf.Choice("s", len(accessorStrings))]
+	v, err := tengo.NewVariable("x", &tengo.String{Value: text})
+	vf.Assert(err == nil, "NewVariable accepts a string")
+	var wi int64
+	if n, perr := strconv.ParseInt(text, 10, 64); perr == nil {
+		wi = n
+	}
+	var wf float64
+	if f, perr := strconv.ParseFloat(text, 64); perr == nil {
+		wf = f
+	}
+	vf.Assert(v.Int64() == wi && v.Int() == int(wi), "Variable.Int/Int64 of `"+text+"`: the decimal int64 it spells, else 0")
+	g := v.Float()
+	vf.Assert(g == wf || (g != g && wf != wf), "Variable.Float of `"+text+"`: the float64 it spells, else 0")
+	// through a script variable and a clone
+	s := tengo.NewScript([]byte(`y := x`))
+	_ = s.Add("x", text)
+	c, cerr := s.Compile()
+	vf.Assert(cerr == nil && c.Run() == nil, "script runs")
+	vf.Assert(c.Get("y").Int64() == wi && c.Clone().Get("y").Int64() == wi, "the same through a script variable and a clone: `"+text+"`")
+	vf.Reach("accessorstrings")
 }
